@@ -75,6 +75,8 @@ def init_worker(ctx):
     import cdd.docstring.emit
     import cdd.docstring.parse
     import cdd.function.emit
+    import cdd.function.parse
+    import cdd.class_.parse
     from cdd.docstring.utils.parse_utils import parse_adhoc_doc_for_typ
     from cdd.shared.cst import cst_parse
     from cdd.shared.defaults_utils import extract_default
@@ -123,7 +125,21 @@ def init_worker(ctx):
         "emit_ir": emit_ir,
         "doctrans": doctrans_n,
         "cst": lambda s: cst_parse(s),
+        "fn_parse": lambda a: cdd.function.parse.function(_first_def(a["src"])),
+        "class_parse": lambda a: cdd.class_.parse.class_(_first_class(a["src"])),
     }
+
+
+def _first_def(src):
+    import ast
+
+    return next(n for n in ast.walk(ast.parse(src)) if isinstance(n, (ast.FunctionDef, ast.AsyncFunctionDef)))
+
+
+def _first_class(src):
+    import ast
+
+    return next(n for n in ast.walk(ast.parse(src)) if isinstance(n, ast.ClassDef))
 
 
 def size_of(arg):
@@ -134,7 +150,7 @@ def size_of(arg):
     return len(core.canon(arg))
 
 
-def traced(fn, arg, budget):
+def traced(fn, arg, budget, wall_cap=3600.0):
     n = [0]
     prefix = core.REPO + os.sep + "cdd" + os.sep
 
@@ -148,6 +164,11 @@ def traced(fn, arg, budget):
     def tr(frame, event, _arg):
         return local if frame.f_code.co_filename.startswith(prefix) else None
 
+    # wall-clock cap of the traced run: a loop whose iterations get slower and slower (growing list, growing string)
+    # may stay under the step budget for minutes.  The cap is >= 20x the stage-1 timer, which itself is >= 10^4 x the
+    # normal time; it only ever applies to calls that already tripped stage 1.
+    old = signal.signal(signal.SIGALRM, _trip)
+    signal.setitimer(signal.ITIMER_REAL, wall_cap)
     sys.settrace(tr)
     try:
         with core.quiet():
@@ -155,10 +176,14 @@ def traced(fn, arg, budget):
         return n[0], "done"
     except Budget:
         return n[0], "BUDGET"
+    except Trip:
+        return n[0], "WALL"
     except Exception:
         return n[0], "raised"
     finally:
         sys.settrace(None)
+        signal.setitimer(signal.ITIMER_REAL, 0)
+        signal.signal(signal.SIGALRM, old)
 
 
 def run_case(case, force_stage2=False):
@@ -180,9 +205,11 @@ def run_case(case, force_stage2=False):
         signal.setitimer(signal.ITIMER_REAL, 0)
         signal.signal(signal.SIGALRM, old)
     if tripped or force_stage2:
-        steps, how = traced(fn, arg, B(n, case["fn"]))
+        steps, how = traced(fn, arg, B(n, case["fn"]), wall_cap=max(10.0, 10 * T1(n, case["fn"])) if tripped else 3600.0)
         r.info["steps"] = steps
-        if how == "BUDGET" and tripped:
+        if how == "WALL" and tripped:
+            r.fail("no-progress", "%s on an input of size %d did not finish in %.0f s untraced, nor in %.0f s traced (%d steps so far, each slower than the last)" % (case["fn"], n, T1(n, case["fn"]), max(10.0, 10 * T1(n, case["fn"])), steps))
+        elif how == "BUDGET" and tripped:
             r.fail("no-progress", "%s on an input of size %d did not finish in %.0f s untraced and exceeds the step budget B(n)=%d" % (case["fn"], n, T1(n, case["fn"]), B(n, case["fn"])))
         elif how == "BUDGET":
             r.label("calibration:finished-but-over-budget")
@@ -307,12 +334,24 @@ def doctrans_case(draw):
     return {"fn": "doctrans", "arg": {"src": m["src"], "runs": [list(x) for x in runs]}}
 
 
+@st.composite
+def signature_case(draw):
+    """hand-shaped defs / classes (positional-only, keyword-only, *args, **kwargs, defaulted self, decorators, stubs)
+    straight into the function and class parsers"""
+    if draw(st.booleans()):
+        feat = []
+        return {"fn": "fn_parse", "arg": {"src": "\n".join(draw(gen_prog.funcdef(feat=feat))) + "\n"}}
+    return {"fn": draw(st.sampled_from(["class_parse", "fn_parse"])), "arg": {"src": "\n".join(draw(gen_prog.classdef())) + "\n"}}
+
+
 def layer_doctrans(ctx):
-    ctx.run_given("doctrans", doctrans_case(), run_case, ctx.cfg["doctrans"], shrink_budget=6)
+    ctx.run_given("signatures", signature_case(), run_case, ctx.cfg["hyp"], shrink_budget=4)
+    if not ctx.stats.violations:
+        ctx.run_given("doctrans", doctrans_case(), run_case, ctx.cfg["doctrans"], shrink_budget=6)
 
 
 LAYERS = [("exhaustive", layer_exhaustive), ("exhaustive-typey", layer_exhaustive_typey), ("hypothesis", layer_hypothesis), ("doctrans", layer_doctrans)]
-COLLECT = lambda ctx: (st.one_of(emit_case(), text_case(), doctrans_case()), run_case)
+COLLECT = lambda ctx: (st.one_of(emit_case(), text_case(), doctrans_case(), signature_case()), run_case)
 
 
 def replay(case):
